@@ -29,7 +29,7 @@ ASSUMPTIONS = ["rows after `done` are padding and are not compared",
                "families with per-process state (graph-weight-distribution family, round-robin factory) are not "
                "used for clauses (b) and (c)", "SimPool models process pools at task granularity; worker death "
                "(which hangs the real Pool.map) is not injected"]
-PROBES = ["source_A", "source_B", "random_solver", "chunk_with_2plus_tasks", "worker_ran_2plus_chunks",
+PROBES = ["evaluation_after_an_interrupted_one", "same_configuration_under_two_gap_functions", "source_A", "source_B", "random_solver", "chunk_with_2plus_tasks", "worker_ran_2plus_chunks",
           "more_workers_than_chunks", "stopped_by_done_before_limit", "calibrated_against_real_pool",
           "fresh_image", "fork_image"]
 TIERS = {
@@ -127,21 +127,41 @@ def run(sim: Sim) -> None:
            "budget": budget, "seed": seed, "env_source": source, "key": key}
     sim.config.update(ctx)
 
-    def one_eval(processes: int, image: str):
+    def one_eval(processes: int, image: str, gap_name_: str = gap_name, tear_at: int | None = None):
+        gap_ = GAP_FUNCTIONS[gap_name_]
         inst = ModelInstance(number_of_players=n, game_class=comp_name, game_generator=key or "factory",
-                             gap_function=gap_name, run_steps_limit=budget, parallel_environments=processes,
+                             gap_function=gap_name_, run_steps_limit=budget, parallel_environments=processes,
                              seed=seed, unique_name="sim")
         solver = SOLVERS[solver_name](inst)
         if source == "A":
-            factory = pm.PrivateEnvFactory(n, comp_name, gap, budget, seed, key=key, values_list=harness_values)
+            factory = pm.PrivateEnvFactory(n, comp_name, gap_, budget, seed, key=key, values_list=harness_values)
         else:
             factory = pm.TaggingEnvFactory(inst)
         pm.CHANNEL.clear()
         with simpool.installed(sim, image, cpu_count=4):
-            E, A = evaluate(solver.next_step, factory, reps, limit, gap, processes, pm.record_reset)
+            if tear_at is not None:
+                return seams.run_torn(lambda: evaluate(solver.next_step, factory, reps, limit, gap_, processes,
+                                                       pm.record_reset), tear_at)
+            E, A = evaluate(solver.next_step, factory, reps, limit, gap_, processes, pm.record_reset)
         return np.array(E), np.array(A), list(pm.CHANNEL)
 
     prelude.warm_process(sim)
+    if sim.flip(1, 5, "earlier-evaluation-interrupted"):
+        # an earlier evaluation in this process was cancelled half-way (Ctrl-C / error in a worker) and the caller went on
+        p0 = 1 + sim.choose(4, "torn-processes")
+        with sim.guard("C12.evaluate_raised"):
+            if one_eval(p0, sim.pick(["fork", "fresh"], "torn-image"), tear_at=1 + sim.choose(3000, "tear-at")) is True:
+                sim.fault("evaluation_interrupted", p0)
+                sim.probe("evaluation_after_an_interrupted_one")
+    if sim.flip(1, 4, "other-gap-first"):
+        # a paired comparison: the same seeded configuration was evaluated under another gap function before
+        other = sim.pick([g for g in sorted(GAP_FUNCTIONS) if g != gap_name], "other-gap")
+        sim.op("evaluate-other-gap", other)
+        with sim.guard("C12.evaluate_raised"):
+            Eo, Ao, cho = one_eval(1 + sim.choose(3, "other-gap-processes"), "fork", gap_name_=other)
+        replay_trajectories(sim, Eo, Ao, cho, n, comp_name, GAP_FUNCTIONS[other], budget, reps, limit,
+                            {**ctx, "gap": other, "pass": "other gap first"})
+        sim.probe("same_configuration_under_two_gap_functions")
     sim.op("evaluate", 1)
     with sim.guard("C12.evaluate_raised"):
         E1, A1, ch1 = one_eval(1, "fork")
